@@ -966,7 +966,7 @@ pub fn write_output(cfg: &RunCfg, reports: &[PatReport], _stats: &Stats, wall: f
             }
         } else if r.status.starts_with("rejected") {
             rejected += 1;
-        } else if r.status.starts_with("skipped") {
+        } else if r.status.starts_with("skipped") || r.status == "not-covered-time" {
             skipped += 1;
         } else {
             errors += 1;
@@ -1055,7 +1055,7 @@ pub fn write_output(cfg: &RunCfg, reports: &[PatReport], _stats: &Stats, wall: f
     s.push_str("\n],\n\"errors\":[\n");
     let mut first = true;
     for r in reports {
-        if r.status.starts_with("error") || r.status.starts_with("not-covered") {
+        if r.status.starts_with("error") {
             if !first {
                 s.push_str(",\n");
             }
@@ -1066,6 +1066,11 @@ pub fn write_output(cfg: &RunCfg, reports: &[PatReport], _stats: &Stats, wall: f
     s.push_str("\n],\n\"not_covered\":[\n");
     let mut first = true;
     let mut nc = 0;
+    let cut = reports.iter().filter(|r| r.status == "not-covered-time").count();
+    if cut > 0 {
+        s.push_str(&std::format!("{{\"pattern\":\"*\",\"what\":{}}}", jstr(&std::format!("{} fixed items were not processed: time cap of the fixed part reached (loaded machine?)", cut))));
+        first = false;
+    }
     for r in reports {
         for d in &r.not_covered {
             nc += 1;
